@@ -1004,7 +1004,9 @@ fn resolve_names_stmt(ctx: &mut StaticsContext, symbol_table: &SymbolTable, stmt
         }
         StmtKind::ForLoop(pat, iterable, statements) => {
             resolve_names_expr(ctx, symbol_table, iterable);
-            resolve_names_pat(ctx, symbol_table, pat, true);
+            // the loop variable belongs to the loop, not to the enclosing scope
+            let symbol_table = symbol_table.new_scope();
+            resolve_names_pat(ctx, &symbol_table, pat, true);
             let symbol_table = symbol_table.new_scope();
             for statement in statements.iter() {
                 resolve_names_stmt(ctx, &symbol_table, statement);
